@@ -62,6 +62,29 @@ class Prop:
         for t in nmea_cases.TALKERS:
             plain.append(gen.render(gen.payload_bits(rng, 'MessageType1'), talker=t + rng.choice(['VDM', 'VDO']))[0])
         cases = [('valid', l) for l in plain]
+        # un-fragmented long sentences (loggers and base stations write payloads of up to MAX_PAYLOAD_LEN characters in
+        # ONE sentence; the body is then far longer than the 82 characters of NMEA 0183): valid, with wrong checksum
+        # values, and with substitutions near both ends of the body
+        longs = []
+        for n_chars in (61, 62, 100, 113, 114, 115, 127, 128, 129, 140, 168, 199, 200):
+            bits = gen.payload_bits(rng, 'MessageType8', length=1008)[:6 * n_chars]
+            pl, fill = gen.armor(bits)
+            longs.append(gen.sentence(rng.choice(['AIVDM', 'AIVDO']), 1, 1, '', rng.choice('AB'), pl, fill))
+        ctx.dist['long_single_sentences'] = len(longs)
+        for l in longs:
+            cases.append(('valid-long', l))
+            star = l.rfind(b'*')
+            good = int(l[star + 1:], 16)
+            for v in sorted(set([good ^ 1, good ^ 0x80, (good + 1) % 256, 0, 255] + [rng.randrange(256) for _ in range(6)])):
+                if v != good:
+                    cases.append(('chk-long=%02X' % v, l[:star + 1] + b'%02X' % v))
+            pos = sorted(set([1, 2, 6, 14, 15, 16, 17, star - 130, star - 129, star - 128, star - 127, star - 3, star - 1]
+                             + [rng.randrange(1, star) for _ in range(8)]))
+            for i in pos:
+                if 1 <= i < star:
+                    for v in (l[i] ^ 1, l[i] ^ 0x10, 0x30, 0x77):
+                        if v != l[i] and v not in (42,):
+                            cases.append(('subst-long@%d' % i, l[:i] + bytes([v]) + l[i + 1:]))
         # a correctly checksummed sentence for EVERY value the checksum can take (00 included): flagged valid
         by_value = {}
         tries = 0
@@ -218,8 +241,82 @@ class Prop:
                     ctx.fail('strict mode differs from lenient mode although all parts are valid', inp, lenient[:200],
                              o[:200], {'kind': 'strict-diff'})
 
+        self.reader_histories(ctx, rng)
+
+    def reader_histories(self, ctx, rng):
+        """what a reader delivers after fragments were lost: messages of one slot in a row, every line intact,
+        corrupted (body byte or checksum value) or lost.  Whatever the reader makes of the leftovers, the flag of a
+        delivered sentence must be the conjunction of the flags of the very lines it is made of (its `raw`)."""
+        ops, meta = [], []
+        n_hist = 60 if ctx.tier == 'quick' else 1200
+        for k in range(n_hist):
+            seq = str(rng.randrange(10))
+            chan = rng.choice('AB')
+            lines = []
+            for m in range(rng.choice([2, 3, 3, 4])):
+                nfrag = rng.choice([2, 2, 3])
+                bits = gen.payload_bits(rng, rng.choice(['MessageType5', 'MessageType8', 'MessageType19']))
+                pl, fill = gen.armor(bits)
+                cut = max(1, len(pl) // nfrag)
+                chunks = [pl[i * cut:(i + 1) * cut] if i < nfrag - 1 else pl[(nfrag - 1) * cut:] for i in range(nfrag)]
+                frs = [gen.sentence('AIVDM', nfrag, i + 1, seq, chan, c, fill if i == nfrag - 1 else 0)
+                       for i, c in enumerate(chunks)]
+                if rng.random() < 0.3:
+                    rng.shuffle(frs)
+                for f in frs:
+                    r = rng.random()
+                    if r < 0.25:
+                        continue                                   # lost
+                    if r < 0.55:
+                        if rng.random() < 0.4:
+                            good = int(f[-2:], 16)
+                            f = f[:-2] + b'%02X' % rng.choice([v for v in range(256) if v != good])
+                        else:
+                            j = rng.randrange(f.rfind(b',', 0, f.rfind(b',')) + 1, f.rfind(b','))
+                            repl = bytes([f[j] ^ 1]) if (f[j] ^ 1) not in (42, 44) else bytes([f[j] ^ 2])
+                            f = f[:j] + repl + f[j + 1:]
+                    lines.append(f)
+                if rng.random() < 0.3:
+                    lines.append(gen.render(gen.payload_bits(rng, 'MessageType1'))[0])
+            if not lines:
+                continue
+            for fe in ('iter', 'queue', 'bytestream'):
+                ops.append('stream %s 0 %s' % (fe, ' '.join(l.hex() for l in lines)))
+                meta.append((fe, lines))
+        outs = ctx.corr(ops, impl.step, 'stream-after-loss')
+        ctx.dist['reader_histories_with_lost_fragments'] = len(ops)
+        flag = {}
+        for (fe, lines), o in zip(meta, outs):
+            if o.startswith(('ERR:', 'READERS-DIFFER')) or 'CRASH:' in o:
+                continue
+            for ev in o.split(' ; '):
+                m = re.match(r'D\d+:\[(.*)\]$', ev)
+                if not m:
+                    continue
+                txt = m.group(1)
+                raw = bytes.fromhex(field(txt, 'raw') or '')
+                parts = [x for x in raw.split(b'\n') if x.strip()]
+                if len(parts) < 2:
+                    continue
+                vs = []
+                for x in parts:
+                    x = x.strip()
+                    if x not in flag:
+                        po = impl.step('parse %s' % x.hex())
+                        flag[x] = None if po.startswith(('ERR:', 'READERS-DIFFER')) else field(po, 'valid') == '1'
+                    vs.append(flag[x])
+                if None in vs:
+                    continue
+                ctx.count('delivered_multipart_after_loss')
+                if (field(txt, 'valid') == '1') != all(vs):
+                    ctx.fail('validity of a delivered multi-part sentence is not the conjunction of the lines it is made of',
+                             {'cmd': 'stream', 'fe': fe, 'lines': [l.hex() for l in lines]}, all(vs), txt[:200],
+                             {'kind': 'conjunction-reader'})
+
     def replay(self, ctx, payload):
         inp = payload['failure']['input']
+        if inp['cmd'] == 'stream':
+            return None           # the generic replay regenerates the histories from the recorded seed
         if inp['cmd'] == 'parse':
             l = bytes.fromhex(inp['line'])
             o = impl.step('parse %s' % inp['line'])
